@@ -45,6 +45,10 @@ Prefixes == {"archived:", "case:", "content:", "c:", "file:", "f:", "fork:", "la
              "repo:", "r:", "sym:", "branch:", "b:", "type:", "t:", "meta.k:", "meta.", ""}
 Values == {"yes", "no", "auto", "filematch", "filename", "file", "repo",      \* documented keywords
            "foo", "Foo", "a.*b", "\"a b\"", "a\\.b", "go", "HEAD",            \* text classes
+           \* regexp syntax classes: a class that matches nothing, negated / named / Unicode classes,
+           \* flags, repeats (lazy, counted, over the limit), empty alternative, anchors, escapes
+           "[^\\s\\S]", "[^a]", "[[:alpha:]]", "\\pL", "\\P{Any}", "(?i)Ab", "(?s).", "a{2,3}", "a{1001}", "a*?", "a|",
+           "^$", "\\bA\\B", "\\x{10FFFF}", "\\Qa.b\\E", "(?P<n>a)", "\\C", "\\z",
            "", "maybe", "(", "[a", "*", "\"", "\\", "\"a", "a\\", "()", "(a b", "a)", ":", "k:v:w", "-x", "or"}   \* damaged
 FieldTokens == {p \o v : p \in Prefixes, v \in Values}
 Contexts(t) == {<<t>>, <<"-", t>>, <<"(", t, ")">>, <<t, "a">>, <<"a", "or", t>>}
